@@ -91,6 +91,26 @@ def idb(i):
     return b"rev-%d" % i
 
 
+ID_FORMS = ("bytes", "int", "bytes-empty", "str-empty", "tuple-empty", "bool-int")
+
+
+def id_form(case):
+    """how revision identifiers are spelled for the implementation: any hashable value is an identifier,
+    including the ones Python treats as false (0, b"", "", (), False)"""
+    return case.get("ids") or ID_FORMS[(len(case["log"]) + sum(r["id"] for r in case["log"][:3])) % len(ID_FORMS)]
+
+
+def id_encoder(form):
+    return {
+        "bytes": idb,
+        "int": lambda i: i,
+        "bytes-empty": lambda i: b"" if i == 0 else idb(i),
+        "str-empty": lambda i: "" if i == 0 else "rev-%d" % i,
+        "tuple-empty": lambda i: () if i == 0 else (i,),
+        "bool-int": lambda i: False if i == 0 else (i + 1 if i >= 1 else i),
+    }[form]
+
+
 def check_cases(ctx, cases):
     from swh.model.toposort import toposort
 
@@ -101,7 +121,14 @@ def check_cases(ctx, cases):
         ctx.case(case, nontrivial=any(r["parents"] for r in log))
         ctx.count("n=%s" % (len(log) if len(log) < 10 else "10+"))
         ctx.count("max_parents=%d" % min(8, max([len(r["parents"]) for r in log] or [0])))
-        inp = [{"id": idb(r["id"]), "parents": [idb(p) for p in r["parents"]], "extra": i} for i, r in enumerate(log)]
+        form = id_form(case)
+        ctx.count("ids-as=" + form)
+        enc = id_encoder(form)
+        back = {}
+        for r in log:
+            for x in [r["id"]] + list(r["parents"]):
+                back[enc(x)] = x
+        inp = [{"id": enc(r["id"]), "parents": [enc(p) for p in r["parents"]], "extra": i} for i, r in enumerate(log)]
         try:
             # the log is "an iterable": also handed over as a tuple and as one-shot iterators
             how = ("list", "tuple", "iter", "generator", "reversed")[len(canon_small(log)) % 5]
@@ -115,7 +142,7 @@ def check_cases(ctx, cases):
             impls.append(None)
             reqs.append({"op": "ping"})
             continue
-        order = [int(r["id"].split(b"-")[1]) for r in out]
+        order = [back[r["id"]] for r in out]
         impls.append(order)
         reqs.append({"op": "toposort", "log": log})
         # ---- property oracle
